@@ -5,7 +5,10 @@
 (* slices), all axis permutations and all reshapes of small shapes.  For   *)
 (* the basic expressions TLC checks that the specification's gather map    *)
 (* is total and of the right size; every vector is replayed on the real    *)
-(* library, the expected movement of positions being numpy's own.          *)
+(* library, the expected movement of positions being numpy's own.  Joins   *)
+(* (concatenate / stack / hstack / vstack / dstack) are enumerated over    *)
+(* the number of operands, the axis and the relation of the operands'      *)
+(* names and terms to each other.                                          *)
 (***************************************************************************)
 EXTENDS Shape, TLC
 
@@ -29,10 +32,19 @@ IndexExprs(s) ==
 IsBasic(e) == \A i \in 1..Len(e) : e[i].t # "list"
 Perms(n) == {p \in [1..n -> 1..n] : \A i, j \in 1..n : i # j => p[i] # p[j]}
 
+JoinFns == {"concatenate", "stack", "hstack", "vstack", "dstack"}
+JoinAxes(f, nd) == IF f = "concatenate" THEN (0 - nd)..(nd - 1) ELSE IF f = "stack" THEN (0 - nd - 1)..nd ELSE {0}
+
 Init == vec = [kind |-> "none"]
 Next == \/ vec.kind = "none" /\ \E s \in Shapes : vec' = [kind |-> "shape", shape |-> s]
         \/ vec.kind = "shape" /\ \E e \in IndexExprs(vec.shape) : vec' = [kind |-> "index", shape |-> vec.shape, items |-> e]
         \/ vec.kind = "shape" /\ \E p \in Perms(Len(vec.shape)) : vec' = [kind |-> "transpose", shape |-> vec.shape, perm |-> p]
+        \* joins: function x number of operands x axis x how the later operands relate to the first
+        \* ("same": same names and terms; "twin": same exponent table and dtype, other names; "terms": same names,
+        \* other terms; "number": a plain numeric array)
+        \/ vec.kind = "shape" /\ \E f \in JoinFns, n \in 1..3, fam \in {"same", "twin", "terms", "number"} :
+              \E ax \in JoinAxes(f, Len(vec.shape)) :
+                 vec' = [kind |-> "join", fn |-> f, shape |-> vec.shape, count |-> n, family |-> fam, axis |-> ax]
 Spec == Init /\ [][Next]_vec
 
 \* expand the ellipsis into full slices so that Shape.tla's basic indexing applies
@@ -49,6 +61,14 @@ BasicIndexTotal ==
   (vec.kind = "index" /\ IsBasic(vec.items)) =>
      LET g == GIndex(vec.shape, Expand(vec.items, Len(vec.shape)))
      IN GatherOK(g, <<vec.shape>>)
+\* concatenating n copies of one shape along an axis: every source position of every operand is used exactly once
+ConcatIsPartition ==
+  (vec.kind = "join" /\ vec.fn = "concatenate") =>
+     LET ss == [i \in 1..vec.count |-> vec.shape]
+         g == GConcat(ss, NormAxis(vec.axis, Len(vec.shape)))
+     IN /\ GatherOK(g, ss)
+        /\ {g.src[k] : k \in 1..Len(g.src)} = (1..vec.count) \X (1..Size(vec.shape))
+        /\ Len(g.src) = vec.count * Size(vec.shape)
 TransposeIsPermutation ==
   vec.kind = "transpose" =>
      LET g == GTranspose(vec.shape, vec.perm)
